@@ -1,10 +1,14 @@
 package main
 
 import (
+	"bytes"
 	"context"
 	"errors"
 	"fmt"
+	"io"
 	"os"
+	"strings"
+	"sync"
 
 	"google.golang.org/grpc"
 	"google.golang.org/grpc/metadata"
@@ -23,25 +27,93 @@ type mappingProvider struct{}
 
 func (mappingProvider) GetMapping() seq.Mapping { return mapping }
 
+// proxyEnv is the state shared by the in-process clients of one environment: which replicas refuse the
+// current request and the order in which the replicas of every shard were asked.
+type proxyEnv struct {
+	mu    sync.Mutex
+	down  [][]bool
+	calls [][]int // per shard: replica indices in the order searchShard asked them
+}
+
 // inproc is a StoreApiClient that hands the request to a real store handler in this process
-// (no network); a failing replica answers with an error.
+// (no network); a replica that is down answers the search with an error.
 type inproc struct {
 	pb.StoreApiClient // nil: every other method is unused
 	g                 *storeapi.GrpcV1
-	fail              bool
+	env               *proxyEnv
+	si, ri            int
 }
 
 func (c *inproc) Search(ctx context.Context, in *pb.SearchRequest, _ ...grpc.CallOption) (*pb.SearchResponse, error) {
-	if c.fail {
+	c.env.mu.Lock()
+	c.env.calls[c.si] = append(c.env.calls[c.si], c.ri)
+	down := c.env.down[c.si][c.ri]
+	c.env.mu.Unlock()
+	if down {
 		return nil, errors.New("replica is down")
 	}
 	ctx = metadata.NewIncomingContext(ctx, metadata.Pairs("use-seq-ql", "true"))
 	return c.g.Search(ctx, in)
 }
 
+// fetchServer collects what the real Fetch handler sends; fetchClient replays it to the proxy.
+type fetchServer struct {
+	grpc.ServerStream
+	ctx    context.Context
+	blocks [][]byte
+}
+
+func (s *fetchServer) Context() context.Context { return s.ctx }
+func (s *fetchServer) Send(d *pb.BinaryData) error {
+	s.blocks = append(s.blocks, append([]byte{}, d.Data...))
+	return nil
+}
+
+type fetchClient struct {
+	grpc.ClientStream
+	blocks [][]byte
+	err    error
+}
+
+func (c *fetchClient) Recv() (*pb.BinaryData, error) {
+	if len(c.blocks) == 0 {
+		if c.err != nil {
+			return nil, c.err
+		}
+		return nil, io.EOF
+	}
+	b := c.blocks[0]
+	c.blocks = c.blocks[1:]
+	return &pb.BinaryData{Data: b}, nil
+}
+
+// Fetch runs the real store handler to completion (a replica that refuses searches still serves fetches:
+// only the search path is made to fail).
+func (c *inproc) Fetch(ctx context.Context, in *pb.FetchRequest, _ ...grpc.CallOption) (pb.StoreApi_FetchClient, error) {
+	srv := &fetchServer{ctx: ctx}
+	err := c.g.Fetch(in, srv)
+	return &fetchClient{blocks: srv.blocks, err: err}, nil
+}
+
+func downFromFail(shards [][][][]Doc, fail []int) [][]bool {
+	down := make([][]bool, len(shards))
+	for si, reps := range shards {
+		down[si] = make([]bool, len(reps))
+		for ri := range reps {
+			down[si][ri] = ri < fail[si]
+		}
+	}
+	return down
+}
+
+func hostName(si, ri int) string { return fmt.Sprintf("shard%d-replica%d", si, ri) }
+func hostSrc(si, ri int) uint64  { return uint64(si*10 + ri + 1) }
+
 // runProxy builds shards x replicas real stores (replica = its own FracManager with its own
-// fraction layout of the shard's documents), a real Ingestor over in-process clients, and runs
-// every request through Ingestor.Search.
+// fraction layout of the shard's documents, hence its own fraction names), real Ingestors (with and
+// without ShuffleReplicas) over in-process clients, and runs every request through Ingestor.Search.
+// Request kinds: proxy (IDs / total / histogram / count aggregation), aggproxy (field aggregation),
+// proxydocs (ShouldFetch: every listed ID with its source, hint and delivered document).
 func runProxy(w *casefile.Writer, shards [][][][]Doc, rsealed [][][]bool, fail []int, fpi int, reqs []*Spec) {
 	base := &Spec{Kind: "proxy", Shards: shards, RSealed: rsealed, Fail: fail, FPI: fpi}
 	var sts []*store
@@ -54,8 +126,12 @@ func runProxy(w *casefile.Writer, shards [][][][]Doc, rsealed [][][]bool, fail [
 			os.RemoveAll(d)
 		}
 	}()
+	env := &proxyEnv{down: downFromFail(shards, fail), calls: make([][]int, len(shards))}
 	clients := map[string]pb.StoreApiClient{}
 	cfg := search.Config{HotStores: &stores.Stores{}, ReadStores: &stores.Stores{}}
+	fracNum := map[string]uint64{}         // fraction name -> number used as hint in the model
+	stOf := map[[2]int]*store{}            // (shard, replica) -> store
+	hostIdx := map[string][2]int{}         // host name -> (shard, replica)
 	err, pn, hung := guarded(func() error {
 		for si, reps := range shards {
 			var hosts []string
@@ -65,6 +141,10 @@ func runProxy(w *casefile.Writer, shards [][][][]Doc, rsealed [][][]bool, fail [
 					return e
 				}
 				sts = append(sts, st)
+				stOf[[2]int{si, ri}] = st
+				for fi, f := range st.fracs {
+					fracNum[f.Info().Name()] = hostSrc(si, ri)*100 + uint64(fi)
+				}
 				ad, e := os.MkdirTemp("", "verif-c05-async-")
 				if e != nil {
 					return e
@@ -74,8 +154,9 @@ func runProxy(w *casefile.Writer, shards [][][][]Doc, rsealed [][][]bool, fail [
 					WorkersCount: 4, FractionsPerIteration: fpi, RequestsLimit: 1000,
 					Async: fracmanager.AsyncSearcherConfig{DataDir: ad},
 				}}, st.fm, mappingProvider{})
-				host := fmt.Sprintf("shard%d-replica%d", si, ri)
-				clients[host] = &inproc{g: g, fail: ri < fail[si]}
+				host := hostName(si, ri)
+				clients[host] = &inproc{g: g, env: env, si: si, ri: ri}
+				hostIdx[host] = [2]int{si, ri}
 				hosts = append(hosts, host)
 			}
 			cfg.HotStores.Shards = append(cfg.HotStores.Shards, hosts)
@@ -86,22 +167,79 @@ func runProxy(w *casefile.Writer, shards [][][][]Doc, rsealed [][][]bool, fail [
 		return
 	}
 	ing := search.NewIngestor(cfg, clients)
+	cfgS := cfg
+	cfgS.ShuffleReplicas = true
+	ingS := search.NewIngestor(cfgS, clients)
 	w.Count(fmt.Sprintf("proxy:shards=%d", len(shards)))
+
+	// one Ingestor.Search; returns the order in which the replicas of every shard were asked
+	call := func(in *search.Ingestor, sr *search.SearchRequest, down [][]bool) (*seq.QPR, search.DocsIterator, [][]int, error) {
+		env.mu.Lock()
+		env.down = down
+		env.calls = make([][]int, len(shards))
+		env.mu.Unlock()
+		qpr, stream, _, e := in.Search(context.Background(), sr, nil)
+		env.mu.Lock()
+		calls := env.calls
+		env.calls = make([][]int, len(shards))
+		env.mu.Unlock()
+		return qpr, stream, calls, e
+	}
+
 	for _, sp := range reqs {
-		sp.Kind, sp.Shards, sp.RSealed, sp.Fail, sp.FPI = "proxy", shards, rsealed, fail, fpi
+		kind := sp.Kind
+		if kind != "aggproxy" && kind != "proxydocs" {
+			kind = "proxy"
+		}
+		sp.Kind, sp.Shards, sp.RSealed, sp.Fail, sp.FPI = kind, shards, rsealed, fail, fpi
 		p := sp.P
 		sr := &search.SearchRequest{Q: []byte(p.query()), Offset: sp.Offset, Size: sp.Size, Interval: seq.MID(p.Hist),
 			From: seq.MID(p.From), To: seq.MID(p.To), WithTotal: p.Total, ShouldFetch: false, Order: p.order()}
-		if p.Agg {
-			sr.AggQ = []search.AggQuery{{GroupBy: "g", Func: seq.AggFuncCount}}
+		switch kind {
+		case "proxy":
+			if p.Agg {
+				sr.AggQ = []search.AggQuery{{GroupBy: "g", Func: seq.AggFuncCount}}
+			}
+		case "aggproxy":
+			sr.AggQ = []search.AggQuery{{Field: "v", GroupBy: "g", Func: seq.AggFunc(sp.Func)}}
+		case "proxydocs":
+			sr.ShouldFetch = true
+			runProxyDocs(w, sp, sr, ing, ingS, call, shards, fracNum, hostIdx)
+			continue
 		}
 		var qpr *seq.QPR
 		err, pn, hung := guarded(func() error {
 			var e error
-			qpr, _, _, e = ing.Search(context.Background(), sr, nil)
+			qpr, _, _, e = call(ing, sr, downFromFail(shards, fail))
 			return e
 		})
-		if direct(w, "proxy", sp, err, pn, hung) {
+		if direct(w, kind, sp, err, pn, hung) {
+			continue
+		}
+		if kind == "aggproxy" {
+			o, oerr := observeFagg(qpr)
+			if oerr != nil {
+				w.Violate("unrepresentable:proxy-aggfield", oerr.Error(), sp)
+				continue
+			}
+			sh := make([]string, len(shards))
+			var chosen [][]Doc
+			for si, reps := range shards {
+				rs := make([]string, len(reps))
+				for ri, layout := range reps {
+					rs[ri] = coqALayout(layout, p)
+				}
+				sh[si] = "[" + strings.Join(rs, ";\n     ") + "]"
+				chosen = append(chosen, reps[fail[si]]...)
+			}
+			split := splitGroup(chosen, p)
+			if split {
+				w.Count("proxy-aggfield:group-part-without-field")
+			}
+			w.Count(fmt.Sprintf("proxy-aggfield:shards=%d", len(shards)))
+			w.Count(fmt.Sprintf("proxy-aggfield:fpi=%d", fpi))
+			w.Add(fmt.Sprintf("CAggProxy\n    [%s]\n    %s %s %d%%nat\n    %s", strings.Join(sh, ";\n    "), coqNats(fail), coqParams(p), fpi,
+				o.coq()), "proxy-aggfield", split, sp, o)
 			continue
 		}
 		o, oerr := observe(qpr)
@@ -152,4 +290,173 @@ func runProxy(w *casefile.Writer, shards [][][][]Doc, rsealed [][][]bool, fail [
 		w.Add(fmt.Sprintf("CProxy\n    %s\n    %s %s %d%%nat %d%%nat %d%%nat\n    %s", sh, coqNats(fail), coqParams(p), sp.Offset, sp.Size,
 			fpi, o.coq()), "proxy", len(shards) >= 2 && sp.Offset > 0 && sp.Size > 0 && len(o.IDs) > 0, sp, o)
 	}
+}
+
+// docObs is one listed ID of a page as the proxy attributes and delivers it.
+type docObs struct {
+	ID   [2]uint64 `json:"id"`
+	Src  uint64    `json:"src"`  // hostSrc of the host the ID's source stands for (0 = unknown source)
+	Hint uint64    `json:"hint"` // number of the fraction the hint names (0 = unknown fraction)
+	Body uint64    `json:"body"` // 0 = empty document, 1 = not the stored bytes, else bodyCode
+}
+
+const maxShuffleTries = 4000
+
+func equalCalls(a, b [][]int) bool {
+	if len(a) != len(b) {
+		return false
+	}
+	for i := range a {
+		if len(a[i]) != len(b[i]) {
+			return false
+		}
+		for j := range a[i] {
+			if a[i][j] != b[i][j] {
+				return false
+			}
+		}
+	}
+	return true
+}
+
+func runProxyDocs(w *casefile.Writer, sp *Spec, sr *search.SearchRequest, ing, ingS *search.Ingestor,
+	call func(*search.Ingestor, *search.SearchRequest, [][]bool) (*seq.QPR, search.DocsIterator, [][]int, error),
+	shards [][][][]Doc, fracNum map[string]uint64, hostIdx map[string][2]int) {
+	p := sp.P
+	down := sp.Down
+	if down == nil {
+		down = downFromFail(shards, sp.Fail)
+	}
+	// the order in which searchShard must ask the replicas: the prefix of the wanted permutation up to the
+	// first replica that is up
+	want := make([][]int, len(shards))
+	for si, reps := range shards {
+		order := make([]int, len(reps))
+		for i := range order {
+			order[i] = i
+		}
+		if sp.Shuffle && sp.Perm != nil {
+			order = sp.Perm[si]
+		}
+		for _, ri := range order {
+			want[si] = append(want[si], ri)
+			if !down[si][ri] {
+				break
+			}
+		}
+	}
+	in := ing
+	if sp.Shuffle {
+		in = ingS
+	}
+	var qpr *seq.QPR
+	var calls [][]int
+	docs := map[[2]uint64][]byte{}
+	tries := 0
+	err, pn, hung := guarded(func() error {
+		for tries = 1; tries <= maxShuffleTries; tries++ {
+			q, stream, c, e := call(in, sr, down)
+			if e != nil {
+				return e
+			}
+			if !equalCalls(c, want) {
+				continue // util.IdxShuffle drew another order: ask again
+			}
+			qpr, calls = q, c
+			for {
+				d, e := stream.Next()
+				if e != nil {
+					break // io.EOF, or the stream's complaint about missing documents: what was delivered counts
+				}
+				k := [2]uint64{uint64(d.ID.MID), uint64(d.ID.RID)}
+				if _, seen := docs[k]; !seen || len(docs[k]) == 0 {
+					docs[k] = append([]byte{}, d.Data...)
+				}
+			}
+			return nil
+		}
+		return nil
+	})
+	if direct(w, "proxy-docs", sp, err, pn, hung) {
+		return
+	}
+	if qpr == nil {
+		w.Count("proxy-docs:shuffle-order-not-drawn")
+		return
+	}
+	stored := map[[2]uint64]Doc{}
+	for _, reps := range shards {
+		for _, layout := range reps {
+			for _, f := range layout {
+				for _, d := range f {
+					stored[[2]uint64{d.MID, d.RID}] = d
+				}
+			}
+		}
+	}
+	page := make([]docObs, len(qpr.IDs))
+	entries := make([]string, len(qpr.IDs))
+	for i, id := range qpr.IDs {
+		k := [2]uint64{uint64(id.ID.MID), uint64(id.ID.RID)}
+		o := docObs{ID: k, Hint: fracNum[id.Hint]}
+		if sr, ok := hostIdx[in.VerifC05HostBySource(id.Source)]; ok {
+			o.Src = hostSrc(sr[0], sr[1])
+		}
+		if b := docs[k]; len(b) > 0 {
+			o.Body = 1
+			if d, ok := stored[k]; ok && bytes.Equal(b, docBody(d)) {
+				o.Body = bodyCode(d)
+			}
+		}
+		page[i] = o
+		body := "None"
+		if o.Body != 0 {
+			body = fmt.Sprintf("(Some %d)", o.Body)
+		}
+		entries[i] = fmt.Sprintf("(mkIS %s %d %d, %s)", coqID(k[0], k[1]), o.Src, o.Hint, body)
+	}
+	sh := make([]string, len(shards))
+	moved := false
+	for si, reps := range shards {
+		hs := make([]string, len(reps))
+		for ri, layout := range reps {
+			fs := make([]string, len(layout))
+			for fi, f := range layout {
+				ds := make([]string, len(f))
+				for j, d := range f {
+					ds[j] = fmt.Sprintf("mkSD (%s) %d", coqDoc(d, p), bodyCode(d))
+				}
+				fs[fi] = fmt.Sprintf("mkNF %d [%s]", hostSrc(si, ri)*100+uint64(fi), strings.Join(ds, "; "))
+			}
+			hs[ri] = fmt.Sprintf("mkH %d %s [%s]", hostSrc(si, ri), coqBool(!down[si][ri]), strings.Join(fs, ";\n       "))
+		}
+		sh[si] = "[" + strings.Join(hs, ";\n     ") + "]"
+		if k := len(calls[si]) - 1; calls[si][k] != k {
+			moved = true // the replica that answered is not the one at the loop position
+		}
+	}
+	idxs := make([]string, len(calls))
+	for si, c := range calls {
+		idxs[si] = coqNats(c)
+	}
+	if sp.Shuffle {
+		w.Count("proxy-docs:shuffle")
+		for si, c := range calls {
+			if len(shards[si]) > 1 {
+				w.Count(fmt.Sprintf("proxy-docs:replicas=%d:answered-by=%d-at-position=%d", len(shards[si]), c[len(c)-1], len(c)-1))
+			}
+		}
+	} else {
+		w.Count("proxy-docs:no-shuffle")
+	}
+	if moved {
+		w.Count("proxy-docs:answering-replica-not-at-loop-position")
+	}
+	w.Count(fmt.Sprintf("proxy-docs:shards=%d", len(shards)))
+	if len(page) > 0 {
+		w.Count("proxy-docs:non-empty-page")
+	}
+	w.Add(fmt.Sprintf("CProxyDocs\n    [%s]\n    [%s] %s %d%%nat %d%%nat %d%%nat\n    [%s]", strings.Join(sh, ";\n    "), strings.Join(idxs, "; "),
+		coqParams(p), sp.Offset, sp.Size, sp.FPI, strings.Join(entries, "; ")),
+		"proxy-docs", moved && len(page) > 0, sp, map[string]any{"page": page, "calls": calls})
 }
